@@ -28,10 +28,10 @@ import (
 // ---------------------------------------------------------------------------------------
 
 type C01Op struct {
-	K      string   `json:"k"` // enq | enqb | deq | ack | nack | dead | ackb | nackb | cancel | requeue | deldead | ckpt
-	IDs    []string `json:"ids,omitempty"`
-	N      int      `json:"n,omitempty"`
-	Pay    int      `json:"pay,omitempty"` // payload length
+	K   string   `json:"k"` // enq | enqb | deq | ack | nack | dead | ackb | nackb | cancel | requeue | deldead | ckpt
+	IDs []string `json:"ids,omitempty"`
+	N   int      `json:"n,omitempty"`
+	Pay int      `json:"pay,omitempty"` // payload length
 }
 
 type C01Case struct {
@@ -103,7 +103,7 @@ type ackLine struct {
 	I      int      `json:"i"`
 	Phase  string   `json:"p"` // s: started, d: done
 	Err    string   `json:"err,omitempty"`
-	IDs    []string `json:"ids,omitempty"`    // dequeue: returned ids (aligned with Leases); manage ops: requested ids
+	IDs    []string `json:"ids,omitempty"` // dequeue: returned ids (aligned with Leases); manage ops: requested ids
 	Leases []string `json:"leases,omitempty"`
 	N      int      `json:"n,omitempty"`
 }
